@@ -4,10 +4,11 @@ C10 — `MPCC` (gcmpy/covers/mpcc.py) is a greedy, maximal-first, edge-disjoint 
 ends up labelled with (size, members, id) of the unique accepted clique containing it.
 
 Inputs of the model: the edge list of a simple graph (`Simple`), `max_size`, and the clique list `L` as it
-is after `shuffle` — any list satisfying the contract `Enumerates` of `nx.enumerate_all_cliques`
+is after `shuffle` — any list satisfying `EnumeratesUpTo`, the part of the contract `Enumerates` of `nx.enumerate_all_cliques`
+that concerns cliques within the size limit (`enumerates_upTo`)
 (`order_irrelevant`: the contract is invariant under permutation, so every theorem holds for every shuffle
 outcome).  `cov = cover edges maxSize L` is the list of accepted cliques in acceptance order.
-Vocabulary (`Simple`, `IsClique`, `Enumerates`, `HasPair`) is defined in `Lemmas/MPCC.lean`.
+Vocabulary (`Simple`, `IsClique`, `Enumerates`, `EnumeratesUpTo`, `HasPair`) is defined in `Lemmas/MPCC.lean`.
 Each theorem lists only the hypotheses it needs.
 -/
 namespace Gcmpy.MPCC
@@ -27,7 +28,7 @@ theorem sortDesc_stable (L : List (List Nat)) (k : Nat) :
 /-! ### 2. accepted cliques are listed cliques within the limit, in non-increasing size order -/
 
 theorem cover_sublist {edges : List Edge} {maxSize : Nat} {L : List (List Nat)}
-    (hL : Enumerates edges L) :
+    (hL : EnumeratesUpTo edges maxSize L) :
     (∀ c ∈ cover edges maxSize L, c ∈ L ∧ IsClique edges c ∧ (maxSize > 0 → c.length ≤ maxSize)) ∧
     (cover edges maxSize L).Sublist (sortDesc L) ∧
     (cover edges maxSize L).Pairwise (fun a b => b.length ≤ a.length) := by
@@ -38,24 +39,24 @@ theorem cover_sublist {edges : List Edge} {maxSize : Nat} {L : List (List Nat)}
   exact ⟨hcL, hL.1 c hcL, greedy_size _ _ _ c hc⟩
 
 theorem cover_nodup {edges : List Edge} {maxSize : Nat} {L : List (List Nat)}
-    (hL : Enumerates edges L) : ∀ c ∈ cover edges maxSize L, c.Nodup :=
+    (hL : EnumeratesUpTo edges maxSize L) : ∀ c ∈ cover edges maxSize L, c.Nodup :=
   fun c hc => ((cover_sublist hL).1 c hc).2.1.1
 
 /-! ### 3. edge-disjointness -/
 
 theorem cover_edge_disjoint {edges : List Edge} {maxSize : Nat} {L : List (List Nat)}
-    (hL : Enumerates edges L) :
+    (hL : EnumeratesUpTo edges maxSize L) :
     (cover edges maxSize L).Pairwise (fun c d => ∀ a b, HasPair c a b → ¬ HasPair d a b) :=
   greedy_disjoint _ _ _ (fun c hc => (hL.1 c ((mem_sortDesc L c).1 hc)).1)
 
 /-! ### 6. maximal-first greedy (stated before 4, which is its 2-clique instance) -/
 
 theorem greedy_maximal {edges : List Edge} {maxSize : Nat} {L : List (List Nat)}
-    (hL : Enumerates edges L) :
+    (hL : EnumeratesUpTo edges maxSize L) :
     ∀ c, IsClique edges c → 2 ≤ c.length → (maxSize = 0 ∨ c.length ≤ maxSize) →
       ∃ d ∈ cover edges maxSize L, c.length ≤ d.length ∧ ∃ a b, HasPair c a b ∧ HasPair d a b := by
   intro c hc hl hsz
-  obtain ⟨d, hdL, hdc⟩ := hL.2 c hc hl
+  obtain ⟨d, hdL, hdc⟩ := hL.2 c hc hl hsz
   have hlen : d.length = c.length := hdc.length_eq
   have hn : ∀ c ∈ sortDesc L, c.Nodup := fun c hc => (hL.1 c ((mem_sortDesc L c).1 hc)).1
   have hdcl := hL.1 d hdL
@@ -75,7 +76,7 @@ theorem greedy_maximal {edges : List Edge} {maxSize : Nat} {L : List (List Nat)}
 /-! ### 4. every edge is covered, by exactly one accepted clique -/
 
 theorem every_edge_covered {edges : List Edge} {maxSize : Nat} {L : List (List Nat)}
-    (hs : Simple edges) (hL : Enumerates edges L) (hm : maxSize = 0 ∨ 2 ≤ maxSize) :
+    (hs : Simple edges) (hL : EnumeratesUpTo edges maxSize L) (hm : maxSize = 0 ∨ 2 ≤ maxSize) :
     ∀ e ∈ edges, ∃ c ∈ cover edges maxSize L, HasPair c e.1 e.2 := by
   intro e he
   have hne : e.1 ≠ e.2 := hs.2.1 e he
@@ -102,7 +103,7 @@ theorem every_edge_covered {edges : List Edge} {maxSize : Nat} {L : List (List N
 
 /-- exactly one position of the cover contains a given edge -/
 theorem edge_in_exactly_one {edges : List Edge} {maxSize : Nat} {L : List (List Nat)}
-    (hs : Simple edges) (hL : Enumerates edges L) (hm : maxSize = 0 ∨ 2 ≤ maxSize) :
+    (hs : Simple edges) (hL : EnumeratesUpTo edges maxSize L) (hm : maxSize = 0 ∨ 2 ≤ maxSize) :
     ∀ e ∈ edges, ∃ (id : Nat) (c : List Nat), (cover edges maxSize L)[id]? = some c ∧ HasPair c e.1 e.2 ∧
       ∀ (id' : Nat) (c' : List Nat), (cover edges maxSize L)[id']? = some c' → HasPair c' e.1 e.2 → id' = id := by
   intro e he
@@ -120,7 +121,7 @@ theorem edge_in_exactly_one {edges : List Edge} {maxSize : Nat} {L : List (List 
 
 /-- all pairs of an accepted clique carry its label (size = member count, members, id = position) -/
 theorem label_complete {edges : List Edge} {maxSize : Nat} {L : List (List Nat)}
-    (hL : Enumerates edges L) {id : Nat} {c : List Nat}
+    (hL : EnumeratesUpTo edges maxSize L) {id : Nat} {c : List Nat}
     (hc : (cover edges maxSize L)[id]? = some c) :
     ∀ a b, HasPair c a b →
       Dict.get (labelMap (cover edges maxSize L)) (normE (a, b)) = some ⟨c.length, c, id⟩ :=
@@ -128,7 +129,7 @@ theorem label_complete {edges : List Edge} {maxSize : Nat} {L : List (List Nat)}
 
 /-- each edge carries exactly the label of the one accepted clique containing it -/
 theorem label_of_edge {edges : List Edge} {maxSize : Nat} {L : List (List Nat)}
-    (hs : Simple edges) (hL : Enumerates edges L) (hm : maxSize = 0 ∨ 2 ≤ maxSize) :
+    (hs : Simple edges) (hL : EnumeratesUpTo edges maxSize L) (hm : maxSize = 0 ∨ 2 ≤ maxSize) :
     ∀ e ∈ edges, ∃ (c : List Nat) (id : Nat), (cover edges maxSize L)[id]? = some c ∧ HasPair c e.1 e.2 ∧
       Dict.get (labelMap (cover edges maxSize L)) (normE e) = some ⟨c.length, c, id⟩ := by
   intro e he
@@ -138,7 +139,7 @@ theorem label_of_edge {edges : List Edge} {maxSize : Nat} {L : List (List Nat)}
 /-- every stored label describes an accepted clique: `members` is the clique at position `id`, `size` its
     member count, and the labelled key is one of its pairs -/
 theorem label_sound {edges : List Edge} {maxSize : Nat} {L : List (List Nat)}
-    (hL : Enumerates edges L) {k : Edge} {l : Lab}
+    (hL : EnumeratesUpTo edges maxSize L) {k : Edge} {l : Lab}
     (h : Dict.get (labelMap (cover edges maxSize L)) k = some l) :
     (cover edges maxSize L)[l.id]? = some l.members ∧ l.size = l.members.length ∧
       ∃ a b, HasPair l.members a b ∧ k = normE (a, b) :=
@@ -147,7 +148,7 @@ theorem label_sound {edges : List Edge} {maxSize : Nat} {L : List (List Nat)}
 /-- ids are positions in the cover: two stored labels with the same id are the same label (same members,
     same size), i.e. the id identifies the motif -/
 theorem ids_unique {edges : List Edge} {maxSize : Nat} {L : List (List Nat)}
-    (hL : Enumerates edges L) {k k' : Edge} {l l' : Lab}
+    (hL : EnumeratesUpTo edges maxSize L) {k k' : Edge} {l l' : Lab}
     (h : Dict.get (labelMap (cover edges maxSize L)) k = some l)
     (h' : Dict.get (labelMap (cover edges maxSize L)) k' = some l') (hid : l.id = l'.id) : l = l' := by
   obtain ⟨h1, h2, _⟩ := label_sound hL h
@@ -161,7 +162,7 @@ theorem ids_unique {edges : List Edge} {maxSize : Nat} {L : List (List Nat)}
 
 /-- two edges carry the same id iff they lie in the same accepted clique (same position) -/
 theorem same_id_iff_same_clique {edges : List Edge} {maxSize : Nat} {L : List (List Nat)}
-    (hL : Enumerates edges L) {id : Nat} {c : List Nat}
+    (hL : EnumeratesUpTo edges maxSize L) {id : Nat} {c : List Nat}
     (hc : (cover edges maxSize L)[id]? = some c) {k : Edge} {l : Lab}
     (h : Dict.get (labelMap (cover edges maxSize L)) k = some l) :
     l.id = id ↔ ∃ a b, HasPair c a b ∧ k = normE (a, b) := by
@@ -176,7 +177,7 @@ theorem same_id_iff_same_clique {edges : List Edge} {maxSize : Nat} {L : List (L
     rw [← Option.some.inj h]
 
 theorem label_size_limit {edges : List Edge} {maxSize : Nat} {L : List (List Nat)}
-    (hL : Enumerates edges L) {k : Edge} {l : Lab}
+    (hL : EnumeratesUpTo edges maxSize L) {k : Edge} {l : Lab}
     (h : Dict.get (labelMap (cover edges maxSize L)) k = some l) :
     2 ≤ l.size ∧ (maxSize > 0 → l.size ≤ maxSize) := by
   obtain ⟨h1, h2, a, b, hab, _⟩ := label_sound hL h
@@ -199,7 +200,7 @@ theorem mpcc_graph_unchanged (edges : List Edge) (maxSize : Nat) (L : List (List
 
 /-- the output: every edge of the graph is labelled, with the label of the accepted clique containing it -/
 theorem mpcc_output {edges : List Edge} {maxSize : Nat} {L : List (List Nat)}
-    (hs : Simple edges) (hL : Enumerates edges L) (hm : maxSize = 0 ∨ 2 ≤ maxSize) :
+    (hs : Simple edges) (hL : EnumeratesUpTo edges maxSize L) (hm : maxSize = 0 ∨ 2 ≤ maxSize) :
     ∀ x ∈ mpcc edges maxSize L, ∃ e ∈ edges, ∃ (c : List Nat) (id : Nat), x = (normE e, some ⟨c.length, c, id⟩) ∧
       (cover edges maxSize L)[id]? = some c ∧ HasPair c e.1 e.2 := by
   intro x hx
@@ -210,10 +211,23 @@ theorem mpcc_output {edges : List Edge} {maxSize : Nat} {L : List (List Nat)}
 
 /-! ### 7. the shuffle is irrelevant for all of the above -/
 
-theorem order_irrelevant {edges : List Edge} {L L' : List (List Nat)}
-    (hL : Enumerates edges L) (hp : L'.Perm L) : Enumerates edges L' :=
+theorem order_irrelevant {edges : List Edge} {maxSize : Nat} {L L' : List (List Nat)}
+    (hL : EnumeratesUpTo edges maxSize L) (hp : L'.Perm L) : EnumeratesUpTo edges maxSize L' :=
   ⟨fun c hc => hL.1 c (hp.mem_iff.1 hc),
-   fun c hc hl => let ⟨d, hd, hdc⟩ := hL.2 c hc hl; ⟨d, hp.mem_iff.2 hd, hdc⟩⟩
+   fun c hc hl hsz => let ⟨d, hd, hdc⟩ := hL.2 c hc hl hsz; ⟨d, hp.mem_iff.2 hd, hdc⟩⟩
+
+/-- the full output of `nx.enumerate_all_cliques` satisfies the contract for every limit, and so does what is left of it
+    after dropping the cliques above a positive limit (which the acceptance loop would skip) -/
+theorem enumerates_upTo {edges : List Edge} {L : List (List Nat)} (hL : Enumerates edges L) (maxSize : Nat) :
+    EnumeratesUpTo edges maxSize L ∧
+    (0 < maxSize → EnumeratesUpTo edges maxSize (L.filter fun c => c.length ≤ maxSize)) := by
+  refine ⟨hL.upTo maxSize, fun hpos => ⟨fun c hc => hL.1 c (List.mem_filter.1 hc).1, ?_⟩⟩
+  intro c hc hl hsz
+  obtain ⟨d, hd, hdc⟩ := hL.2 c hc hl
+  refine ⟨d, List.mem_filter.2 ⟨hd, ?_⟩, hdc⟩
+  have : d.length = c.length := hdc.length_eq
+  simp only [decide_eq_true_eq]
+  omega
 
 /-- the brute-force enumeration used by the harness satisfies the contract -/
 theorem allCliques_enumerates (es : List Edge) (nodes : List Nat) (hnod : nodes.Nodup)
